@@ -23,8 +23,8 @@ timestamps / device relays prefer the other side / both), see tools/gen.py -/
 def runLine (chk : Bool) (nostd : Bool) (tie : Nat) (line : String) : String :=
   let toks := (line.trimAscii.toString.splitOn " ").filter (· ≠ "")
   -- (until the `fix:` commit 24d9cb7 the builds without `std` used a hand-written `abs` and `nostd` rewrote `q abs` to `q absm`;
-  --  since then every build clears the sign bit like `f32::abs`, and the option changes nothing)
-  let _ := nostd
+  --  since then every build clears the sign bit like `f32::abs`; the option now only tells group `rf` which `Reference` variants and
+  --  which definition of the macro behind `to_dyn!` the build has)
   match toks with
   | [] => ""
   | "q" :: rest => runM (runQ chk rest)
@@ -40,7 +40,7 @@ def runLine (chk : Bool) (nostd : Bool) (tie : Nat) (line : String) : String :=
   | "wr" :: rest => (match tie with
       | 1 => runM (Rrtk.TieT1.Drv.runWr chk rest) | 2 => runM (Rrtk.TieT2.Drv.runWr chk rest)
       | 3 => runM (Rrtk.TieT3.Drv.runWr chk rest) | _ => runM (runWr chk rest))
-  | "rf" :: rest => runM (runRf chk rest)
+  | "rf" :: rest => runM (runRf chk nostd rest)
   | "sf" :: rest => runM (runSf rest)
   | _ => "NOIMPL"
 
